@@ -120,7 +120,7 @@ def _short(o):
     return r if len(r) <= 160 else r[:157] + "..."
 
 
-def diff(a, b, *, roots=("cirq",), ignore=(), max_depth=14, max_out=12):
+def diff(a, b, *, roots=("cirq",), ignore=(), normalize=None, max_depth=14, max_out=12):
     """Differences between the stored fields of `a` and `b`.
 
     `roots`: module prefixes whose instances are opened up attribute by
@@ -128,7 +128,11 @@ def diff(a, b, *, roots=("cirq",), ignore=(), max_depth=14, max_out=12):
     strings, sympy, pandas, datetime, enum) or skipped (functions, opaque).
     `ignore`: set of (owner class name, attribute) pairs that are lazily
     computed caches and may legitimately differ.
+    `normalize`: {class name: f(obj) -> plain data}; instances of such a class
+    are compared through f instead of attribute by attribute (for classes that
+    keep the same value in several internal representations).
     """
+    normalize = normalize or {}
     out = []
     seen = set()
     ignore = set(ignore)
@@ -224,7 +228,7 @@ def diff(a, b, *, roots=("cirq",), ignore=(), max_depth=14, max_out=12):
                     if k2 is None:
                         out.append(Diff(owner, field, path + "[%s]" % _short(k), "<key present>", "<key missing>"))
                         continue
-                else:
+                elif len(y) <= 24:
                     # the key objects themselves may carry lost fields
                     for kk in y:
                         try:
@@ -284,8 +288,15 @@ def diff(a, b, *, roots=("cirq",), ignore=(), max_depth=14, max_out=12):
                 out.append(Diff(owner, field, path + "<type>", type(x).__name__, type(y).__name__))
                 return
             seen.add(key)
-            ax, ay = _attrs(x), _attrs(y)
             cname = type(x).__name__
+            if cname in normalize:
+                try:
+                    nx_, ny_ = normalize[cname](x), normalize[cname](y)
+                except Exception:
+                    return
+                rec(nx_, ny_, cname, "<value>", path + "<normalized>", depth + 1)
+                return
+            ax, ay = _attrs(x), _attrs(y)
             for name in ax:
                 if name not in ay or is_cache_attr(name) or (cname, name) in ignore:
                     continue
